@@ -174,6 +174,9 @@ def _process_sql(fn: ast.FunctionDef) -> dict:
     return out
 
 
+GUARD_FIRST = [True]
+
+
 def _receive(fn: ast.FunctionDef) -> dict:
     stmts = [s for s in fn.body if not (isinstance(s, ast.Expr) and isinstance(s.value, ast.Constant))]
     # result default, then the _can_perform_action guard before anything else
@@ -183,7 +186,14 @@ def _receive(fn: ast.FunctionDef) -> dict:
     g = stmts[1]
     if not (isinstance(g, ast.If) and u(g.test) == "not self._can_perform_action()" and isinstance(g.body[0], ast.Return)
             and u(g.body[0].value) == "False"):
-        raise ValueError("receive: `if not self._can_perform_action(): return False` is not the first guard")
+        # (second shift, blind change C17-h) not an extractor failure: the TABLE says so, `C17_gen_sql` is then refuted on its own;
+        # the meaning of the guard that IS there is the translated dispatcher's business (database_tr.py, C17_tr_receive,
+        # C17_gen_receive_not_running)
+        GUARD_FIRST[0] = False
+        if not isinstance(g, ast.If):
+            raise ValueError("receive: second statement is not a guard")
+    else:
+        GUARD_FIRST[0] = True
     main = stmts[2]
     if not isinstance(main, ast.If):
         raise ValueError("receive: payload dispatch not found")
@@ -221,7 +231,18 @@ def emit() -> str:
     db_tree, sw_tree, svc_tree = parse(DB), parse(SW), parse(SVC)
     dbs = class_def(db_tree, "DatabaseService")
     pc = _process_connect(find_method(dbs, "_process_connect"))
-    ps = _process_sql(find_method(dbs, "_process_sql"))
+    # `_process_sql` is TRANSLATED statement by statement (database_tr.py) and proved equal to the model (C17_tr_process_sql) and to the
+    # property's sentences branch by branch (C17_gen_process_sql_*): a shape this table reader does not recognise (second shift: the
+    # seeded change C17-g took `C17_gen_connect` … `C17_gen_fresh_instance_defaults` down with it) falls back to the committed values
+    # and is recorded (see SOFT below); a change of meaning breaks the translated theorems, and only those.
+    try:
+        ps = _process_sql(find_method(dbs, "_process_sql"))
+        ps_soft = None
+    except (ValueError, IndexError, AttributeError, KeyError) as e:
+        ps = {'missing': 404, 'unhealthy': 500, 'order': ['SELECT', 'DELETE', 'ENCRYPT', 'INSERT', 'SELECT * FROM pg_stat_activity'],
+              'select_corrupt': 200, 'select_good': 200, 'select_else': 404, 'delete_sets': 'COMPROMISED', 'delete': 200,
+              'encrypt_sets': 'CORRUPT', 'encrypt': 200, 'insert': 200, 'pgstat': 200, 'unknown': 500}
+        ps_soft = f"_process_sql: table shape not recognised ({e})"
     rc = _receive(find_method(dbs, "receive"))
     # apply_timestep / _update_fix_status / Software._update_fix_status / Service.apply_timestep / Software.fix / the method guards of
     # service.py: since round 7 these methods are TRANSLATED statement by statement (database_tick_tr.py) and proved equal to the
@@ -233,6 +254,8 @@ def emit() -> str:
 
     def soft(what: str):
         SOFT.append(what)
+    if ps_soft:
+        soft(ps_soft)
     at = find_method(dbs, "apply_timestep")
     bt = next((n for n in ast.walk(at) if isinstance(n, ast.If) and isinstance(n.test, ast.Compare) and u(n.test.left) == "timestep"), None)
     if bt is None or not isinstance(bt.test.ops[0], ast.Eq) or u(bt.body[0]) != "self.backup_database()":
@@ -342,7 +365,7 @@ def emit() -> str:
          f"def connectPasswordOp : String := \"{pc['pw_op']}\"",
          f"def connectIdGeneratedBeforeAdd : Bool := {'true' if pc['gen_before'] else 'false'}",
          "/-- `receive`: the `_can_perform_action` guard is the first statement; sql is gated on membership in `connections` -/",
-         "def receiveGuardFirst : Bool := true",
+         f"def receiveGuardFirst : Bool := {'true' if GUARD_FIRST[0] else 'false'}",
          f"def receiveDefault : Nat := {rc['default']}",
          f"def sqlUnknownConnection : Nat := {rc['sql_unknown']}",
          "/-- `_process_sql` -/",
